@@ -18,21 +18,24 @@ RULE = ("controller-level network runs of 4 and 7 real operators with <= f Byzan
 TRUSTED_BASE = [
     "modelled, not verified: instance.UponRoundTimeout, Controller.OnTimeout, uponRoundChange / uponChangeRoundPartialQuorum / "
     "hasReceivedProposalJustificationForLeadingRound, specqbft.RoundRobinProposer (Go int arithmetic incl. wrap-around)",
-    "the fault-free synchronous theorem is a complete evaluation (vm_compute) of 34 whole-committee executions of the model: "
-    "sizes 4/7/10/13, operator ids 1..n, every leader; the bound is part of the statement",
+    "the fault-free synchronous theorem is proved for every committee (Qbft/SyncGeneric.v: induction over the committee list, "
+    "any distinct non-zero ids, any quorum in 1..n, any height whose leader computation succeeds); the complete evaluation "
+    "(vm_compute) of the 34 whole-committee executions for sizes 4/7/10/13 is kept beside it",
 ]
 ASSUMPTIONS = [
     "partial synchrony in the continuation: messages are delayed, never lost; timers of operators in lower rounds expire first",
     "the recovery claim 'from EVERY reachable state within f+3 rounds' is explored, not proved (DESIGN.md section 7)",
 ]
 TECHNIQUE = ("Coq theorems (timeout rule for all states; leader index and rotation for all committees; fault-free synchronous "
-             "round by exhaustive evaluation for the admitted committee sizes) + differential check and measured timely continuations on the real controllers")
+             "round for every committee by induction, and by exhaustive evaluation for the admitted committee sizes) + differential check and measured timely continuations on the real controllers")
 LEVEL_TEXT = ("Machine-checked: before the cut-off a timeout moves EVERY instance state to the next round, clears the accepted "
               "proposal, re-arms the timer and broadcasts a round-change carrying the prepared round/value iff the operator had "
               "prepared (full, all states); the controller forwards current-round timeouts of undecided instances; the leader is "
               "committee[(height mod n + round - 1) mod n] and every member leads within n rounds (all committees < 1000, heights "
               "and rounds < 2^62); in the fault-free synchronous first round every operator decides the leader's value, broadcasting "
-              "exactly one prepare and one commit, for committee sizes 4, 7, 10, 13 and every leader (bounded: by evaluation). "
+              "exactly one prepare and one commit (the leader also its proposal) and staying in round 1 - for EVERY committee of "
+              "distinct non-zero ids, every quorum between 1 and its size, every height and leader (C07_sync_fault_free, "
+              "C07_sync_fault_free_generic; also evaluated for sizes 4, 7, 10, 13). "
               "PARTIAL: recovery from every reachable state is explored on the real code (timely continuation after adversarial "
               "prefixes, rounds needed are measured), not proved.")
 LEVEL_NOTE = ("Partial claim: C07's existential recovery sentence is supported by exploration only; a heuristic continuation that "
